@@ -708,7 +708,15 @@ func (fr *frame) callExternal(st *State, callee *ssa.Function, args []*Val, pos 
 		return &Val{T: Or(Eq(args[0].T, vc.posInf()), Eq(args[0].T, App("-", SReal, vc.posInf()))), Go: types.Typ[types.Bool]}
 	case "math/bits.TrailingZeros32", "math/bits.Reverse32", "math/bits.OnesCount32", "math/bits.OnesCount", "math/bits.Len32", "math/bits.LeadingZeros32":
 		if vc.isBV() {
-			return &Val{T: vc.bitsStub(strings.TrimPrefix(name, "math/bits."), args[0].T), Go: sig.Results().At(0).Type()}
+			short := strings.TrimPrefix(name, "math/bits.")
+			t := vc.bitsStub(short, args[0].T)
+			if strings.HasPrefix(short, "OnesCount") {
+				// a count of w one-bit summands lies in 0..w: stated explicitly (follows from the definition)
+				rt := sig.Results().At(0).Type()
+				t = vc.define("ones", t)
+				vc.assume(st.guard, And(vc.iCmp(">=", t, vc.intConst(big.NewInt(0), rt), true), vc.iCmp("<=", t, vc.intConst(big.NewInt(int64(args[0].T.S.W)), rt), true)))
+			}
+			return &Val{T: t, Go: sig.Results().At(0).Type()}
 		}
 		r := vc.fresh("bits", SInt)
 		lim := int64(32)
